@@ -185,10 +185,9 @@ def spec_outcome(v):
 def norm_go_req(v):
     """normalised observables of Go's ParseDependency output (the normalisation C16 states)."""
     name, extras, constraint, envt = v[1], v[2], v[3], v[4]
-    ex = [e.strip(b" \t") for e in extras.split(b",")]
-    ex = [e for e in ex if e]
-    cl = [bytes(c for c in part if c not in b" \t") for part in constraint.split(b",")]
-    cl = [c for c in cl if c]
+    nows = lambda b: bytes(c for c in b if c not in b" \t")
+    ex = [e for e in nows(extras).split(b",") if e]
+    cl = [c for c in nows(constraint).split(b",") if c]
     return name, ex, cl, envt
 
 
